@@ -16,7 +16,7 @@ use std::sync::Arc;
 use std::time::Instant;
 
 use dusk_plonk::prelude::*;
-use shuttle::scheduler::{PctScheduler, RandomScheduler, ReplayScheduler};
+use shuttle::scheduler::{PctScheduler, RandomScheduler};
 use shuttle::{Config, FailurePersistence, MaxSteps, Runner};
 
 use crate::channel::Msg;
@@ -189,6 +189,15 @@ fn body(sh: Arc<Shared>) {
     }
 }
 
+fn run_iteration(sched_seed: u64, it: u64, use_pct: bool, sh: Arc<Shared>) {
+    let s = derive(sched_seed, &[it]);
+    if use_pct {
+        Runner::new(PctScheduler::new_from_seed(s, 3, 1), config(None)).run(move || body(sh.clone()));
+    } else {
+        Runner::new(RandomScheduler::new_from_seed(s, 1), config(None)).run(move || body(sh.clone()));
+    }
+}
+
 fn config(dir: Option<&str>) -> Config {
     let mut cfg = Config::new();
     cfg.stack_size = 16 << 20;
@@ -223,34 +232,34 @@ pub fn cmd_mt(seed: u64, thorough: bool, shard: (u64, u64), runs: u64, out: &str
                 continue;
             }
         };
-        let iterations = if thorough { 24 } else { 10 };
+        let iterations: u64 = if thorough { 24 } else { 10 };
         let sched_seed = derive(seed, &[tag("C18-mt"), r, tag("shuttle")]);
-        let dir = format!("{}/C18-mt-{}-{}", replay_dir, seed, r);
-        let _ = std::fs::remove_dir_all(&dir);
-        let _ = std::fs::create_dir_all(&dir);
         let use_pct = r % 2 == 1;
-        let sh2 = sh.clone();
-        let res = catch_unwind(AssertUnwindSafe(|| {
-            if use_pct {
-                Runner::new(PctScheduler::new_from_seed(sched_seed, 3, iterations), config(Some(&dir))).run(move || body(sh2.clone()))
-            } else {
-                Runner::new(RandomScheduler::new_from_seed(sched_seed, iterations), config(Some(&dir))).run(move || body(sh2.clone()))
-            }
-        }));
         let n_calls: usize = sh.plans.iter().map(|p| p.len()).sum();
-        match res {
-            Ok(n) => {
-                schedules += n as u64;
-                for i in 0..n as u64 {
-                    st.eval(derive(sched_seed, &[i]), true);
+        // one shuttle execution per iteration, each with its own derived seed: a failure is then
+        // identified by (run, iteration) and replays from that seed alone
+        let mut failed_iter: Option<u64> = None;
+        for it in 0..iterations {
+            let sh2 = sh.clone();
+            let res = catch_unwind(AssertUnwindSafe(|| run_iteration(sched_seed, it, use_pct, sh2)));
+            match res {
+                Ok(()) => {
+                    schedules += 1;
+                    st.eval(derive(sched_seed, &[it]), true);
+                    st.steps += n_calls as u64;
                 }
-                st.steps += (n * n_calls) as u64;
-                let _ = std::fs::remove_dir_all(&dir);
+                Err(_) => {
+                    failed_iter = Some(it);
+                    break;
+                }
+            }
+        }
+        match failed_iter {
+            None => {
                 st.probe(if use_pct { "shuttle_pct_runs" } else { "shuttle_random_runs" });
                 st.probe_n("concurrent_callers", sh.plans.len() as u64);
             }
-            Err(_) => {
-                let sched = std::fs::read_dir(&dir).ok().and_then(|mut d| d.next()).and_then(|e| e.ok()).map(|e| e.path().display().to_string());
+            Some(it) => {
                 let path = format!("{}/C18-{}-{}-mt.json", replay_dir, seed, r);
                 let file = J::obj(vec![
                     ("property", J::s("C18")),
@@ -260,14 +269,17 @@ pub fn cmd_mt(seed: u64, thorough: bool, shard: (u64, u64), runs: u64, out: &str
                     ("run", J::U(r)),
                     ("tier", J::s(if thorough { "thorough" } else { "quick" })),
                     ("spec", J::s("")),
-                    ("shuttle_schedule_file", J::s(sched.clone().unwrap_or_default())),
+                    ("shuttle_iteration", J::U(it)),
+                    ("shuttle_seed", J::U(derive(sched_seed, &[it]))),
                     ("scheduler", J::s(if use_pct { "pct(depth 3)" } else { "random" })),
                     ("detail", J::s("a concurrent caller's result differs from the sequential result of the same call, or a caller panicked")),
                     ("scenario", J::s(desc.clone())),
                 ]);
+                let _ = std::fs::create_dir_all(replay_dir);
                 let _ = std::fs::write(&path, file.render());
                 violations.push(J::obj(vec![
                     ("run", J::U(r)),
+                    ("iteration", J::U(it)),
                     ("invariant", J::s("I-determ/concurrent")),
                     ("detail", J::s(format!("concurrent callers diverge from sequential results; {}", desc))),
                     ("replay", J::s(path)),
@@ -293,19 +305,17 @@ pub fn cmd_mt(seed: u64, thorough: bool, shard: (u64, u64), runs: u64, out: &str
     std::fs::write(out, j.render()).expect("write");
 }
 
-/// Replay one persisted schedule; exit 1 if it fails again.
-pub fn cmd_mt_replay(seed: u64, run: u64, thorough: bool, schedule_file: &str) {
+/// Replay one (run, iteration); exit 1 if it fails again.
+pub fn cmd_mt_replay(seed: u64, run: u64, thorough: bool, it: u64) {
     install_seams();
     let mut st = Stats::default();
     let (sh, _) = match build_shared(seed, run, thorough, &mut st) {
         Some(x) => x,
         None => std::process::exit(2),
     };
-    let sched = match ReplayScheduler::new_from_file(schedule_file) {
-        Ok(s) => s,
-        Err(_) => std::process::exit(2),
-    };
-    let res = catch_unwind(AssertUnwindSafe(|| Runner::new(sched, config(None)).run(move || body(sh.clone()))));
+    let sched_seed = derive(seed, &[tag("C18-mt"), run, tag("shuttle")]);
+    let use_pct = run % 2 == 1;
+    let res = catch_unwind(AssertUnwindSafe(|| run_iteration(sched_seed, it, use_pct, sh)));
     match res {
         Ok(_) => {
             println!("REPLAY clean");
